@@ -237,6 +237,20 @@ Definition ordp_fixed : list step := [PArm; PPublish; PCallback].
 Definition ordp_pinned : list step := [PPublish; PCallback; PArm].
 Definition ordc_code : list step := [CLock; CPublish; CArm; CAddPerm; CCallback; CUnlock].
 
+(* ---------- the condition under which a call that is inside a lifecycle callback has nothing left to publish ---------- *)
+Definition pubstep (x : step) : bool := match x with PPublish | CPublish | CAddPerm => true | _ => false end.
+Definition no_pub (l : list step) : bool := forallb (fun x => negb (pubstep x)) l.
+Definition is_cb (x : step) : bool := match x with PCallback | CCallback => true | _ => false end.
+Definition is_cadd (x : step) : bool := match x with CAddPerm => true | _ => false end.
+Fixpoint from_first (f : step -> bool) (l : list step) : list step :=
+  match l with [] => [] | x :: r => if f x then x :: r else from_first f r end.
+Definition after_first (f : step -> bool) (l : list step) : list step := tl (from_first f l).
+(* every publishing step of AddPermission precedes OnPermissionCreated; every publishing step of AddChannelBind
+   (its own publication and the nested AddPermission) precedes the callbacks it runs (C15: teardown during a slow
+   lifecycle callback, Proofs/TeardownQuiet.v) *)
+Definition callbacks_last (ordp ordc : list step) : bool :=
+  no_pub (from_first is_cb ordp) && no_pub (after_first is_cadd ordc) && no_pub (from_first is_cb ordc).
+
 (* the shape of Allocation.Close the thread TClose0..TCloseC models: test-and-close the closed channel, stop the
    allocation timer, then snapshot / remove / stop for permissions, then for channels *)
 Inductive kstep := KClosed | KStopA | KListP | KRemoveP | KStopP | KListC | KRemoveC | KStopC.
